@@ -133,7 +133,7 @@ func TestVF_C34(t *testing.T) {
 		"IgnoreDeletionMarkFilter(I) + DefaultDeduplicateFilter), syncs also placed between the single bucket mutations of Upload/Delete; virtual time via rewritten DeletionTime; oracle after every bucket mutation and every sync: " +
 		"every sample of the source blocks is held by a block that some gateway loaded at its last sync and that still exists completely; every 10th schedule violates the premise (L > D-I, adversarial gateway) and is expected to fire " +
 		"(calibration, not reported); distinct = schedule signature; non-trivial = all sources were deleted by the cleaner during the schedule")
-	n := r.N(300, 6000)
+	n := r.N(300, 12000)
 	r.Require(int64(n*8/10), n/3)
 	r.Assume("filter chains and delays are mirrored from cmd/thanos/store.go and cmd/thanos/compact.go; package main wiring itself is not executed")
 	r.Assume("virtual time: every mark age evaluated by the code is half a grid tick (>= 5 virtual minutes) away from I and D; a step taking > 30 s of real time makes the run inconclusive")
